@@ -448,12 +448,31 @@ def c14_r4(ctx):
                 if callee is not None and callee.node.returns is not None and norm(callee.node.returns) != "None" and not any(
                         isinstance(n, ast.Attribute) and isinstance(n.ctx, ast.Store) for n in ast.walk(callee.node)):
                     ctx.fail(key(m, f"discarded {norm(st.value)}"), f"the result of {norm(st.value)} is discarded although {st.value.func.attr} only computes a value: the variables of deeper levels are lost", m.loc(st))
-    loops = [n for n in walk_no_nested(fv.node) if isinstance(n, ast.For)]
-    merged = [norm(c) for c in walk_no_nested(fv.node) if isinstance(c, ast.Call) and norm(c.func) == "formatted_variables.update"]
-    good = len(merged) == 2 and all(m.endswith(".get_formatted_variables())") for m in merged) and any("self._subfields" in norm(l.iter) for l in loops) and any("self._inline_fragments.values()" in norm(l.iter) for l in loops)
-    ctx.check(good, key(fv, "recursive merge"), f"sub-field and inline-fragment variables are not merged recursively ({merged})", fv.loc(), okmsg="variables merged recursively over sub-fields and inline fragments")
-    rets = [n for n in fv.node.body if isinstance(n, ast.Return)]
-    ctx.check(len(rets) == 1 and norm(rets[0].value) == "formatted_variables" and "formatted_variables = self.formatted_variables.copy()" in norm(fv.node), key(fv, "own variables"), "own variables are not part of the result (or the stored dict is mutated)", fv.loc(),
+    # the result as a union of contributions (in-place update, rebinding and `|` are one form after loading); children that come
+    # from a generator helper of the class are expanded to what the helper yields
+    from ..util import union_terms
+    outs = [o for o in Interp(fv, lambda e: None).run() if o.kind == "return" and not any("loop skipped" in t for t in o.trace)]
+    terms: List[str] = []
+    if len(outs) == 1 and outs[0].value is not None:
+        v = outs[0].deref(outs[0].value)
+        raw = union_terms(v) + [norm(strip_pre(c.args[0])) for m in (outs[0].muts(outs[0].value.id) if isinstance(outs[0].value, ast.Name) else []) for c in [m] if isinstance(c, ast.Call) and c.args]
+        for t in raw:
+            expanded = False
+            for hname, h in gf.methods.items():
+                pat = f"<elem>(self.{hname}())"
+                if pat in t and any(isinstance(x, (ast.Yield, ast.YieldFrom)) for x in ast.walk(h.node)):
+                    for ho in Interp(h, lambda e: None).run():
+                        if any("loop skipped" in tr for tr in ho.trace):
+                            continue
+                        for y in ho.yields:
+                            terms.append(t.replace(pat, norm(strip_pre(y))))
+                    expanded = True
+            if not expanded:
+                terms.append(t)
+    terms = sorted(set(terms))
+    want = sorted(["self.formatted_variables.copy()", "<elem>(self._subfields).get_formatted_variables()", "<elem>(<elem>(self._inline_fragments.values())).get_formatted_variables()"])
+    ctx.check(terms == want, key(fv, "recursive merge"), f"sub-field and inline-fragment variables are not merged recursively: the result is the union of {terms}", fv.loc(), okmsg="variables merged recursively over sub-fields and inline fragments")
+    ctx.check("self.formatted_variables.copy()" in terms and not any(isinstance(n, (ast.Attribute, ast.Subscript)) and isinstance(n.ctx, ast.Store) and norm(n).startswith("self.formatted_variables") for n in ast.walk(fv.node)), key(fv, "own variables"), "own variables are not part of the result (or the stored dict is mutated)", fv.loc(),
               okmsg="result starts from a copy of the field's own variables")
     # unique names
     un = gf.methods["_format_variable_name"]
